@@ -257,6 +257,16 @@ def gen_workbook(rng, max_sheets=4):
             dn[pool.pop()] = {'sheet': sh['name'],
                               'ref': f'{col_letter(c1)}{r1 + 1}:'
                                      f'{col_letter(c2)}{r2 + 1}'}
+    # a few formulas use a range name
+    range_names_ = [n for n, t in dn.items() if ':' in t['ref']]
+    for sh in sheets:
+        if range_names_ and rng.random() < 0.4:
+            c, r = rng.randrange(W), rng.randrange(H)
+            sh['cells'][f'{col_letter(c)}{r + 1}'] = {
+                'form': 'f', 'parts': [rng.choice(
+                    ['SUM(', 'COUNT(', 'MAX(']) + rng.choice(range_names_)
+                    + ')' + rng.choice(['', '+1', '*2'])],
+                'cached': gen_cached(rng)}
     # a few formulas use a cell name
     cell_names = [n for n, t in dn.items() if ':' not in t['ref']]
     for sh in sheets:
